@@ -146,6 +146,9 @@ fn header_bytes(hdr: &str, src: SocketAddr, port: u16) -> Vec<u8> {
     match hdr {
         "v1" => proxy_v1(src, dst),
         "v2" => proxy_v2(src, dst),
+        // valid headers that announce no address: the balancer's own connection (health check)
+        "v1unknown" => b"PROXY UNKNOWN\r\n".to_vec(),
+        "v2local" => vec![0x0D, 0x0A, 0x0D, 0x0A, 0x00, 0x0D, 0x0A, 0x51, 0x55, 0x49, 0x54, 0x0A, 0x20, 0x00, 0x00, 0x00],
         "invalid" => b"PROXY NONSENSE 1 2 3\r\n".to_vec(),
         "garbage" => vec![0x0D, 0x0A, 0x0D, 0x0A, 0x00, 0x0D, 0x0A, 0x51, 0x55, 0x49, 0x54, 0x0A, 0x7f, 0x7f, 0, 0],
         _ => vec![],
